@@ -83,6 +83,25 @@ def make(rule_id, pid=None):
                     cands = [c for c in v.calls.values() if (_match_call(pr, c, req) or any(_match_call(pr, c, a_) for a_ in req.get("alt", []))) and (t is None or _same_ok(pr, t, c, req.get("same", [])))]
                     key = "%s/%s/%s/%s" % (res.rule, f.path, row["id"], req.get("name", req["callee"]))
                     tdesc = "entry" if t is None else "%s (line %d)" % (t.name.split("::")[-1], t.line)
+                    if not cands and row.get("or_in_callers"):
+                        # the obligation may be met by whoever called this function: every caller must then perform
+                        # the required call on every Ok path after its call to this function
+                        callers_ = [(g_, c_) for g_ in ctx.fx.fns.values() for c_ in ctx.cg.calls[g_.path] if c_.kind == "call" and any(x_.path == f.path for x_ in c_.all_targets())]
+                        okc = bool(callers_)
+                        for (g_, c_) in callers_:
+                            vg = view(ctx, g_)
+                            prg = Prov(g_)
+                            cg_ = [c2 for c2 in vg.calls.values() if _match_call(prg, c2, req) or any(_match_call(prg, c2, a_) for a_ in req.get("alt", []))]
+                            oks_ = set()
+                            for c2 in cg_:
+                                oks_.update(vg.ok_nodes(c2.bb) or [("t", c2.bb)])
+                            st_ = vg.ok_nodes(c_.bb) or list(vg.pg.succ[("t", c_.bb)])
+                            rc_ = vg.pg.reach(st_, oks_ | set(vg.all_err_nodes()))
+                            if not cg_ or any(r_ in rc_ for r_ in vg.pg.returns()):
+                                okc = False
+                        if okc:
+                            res.ok({"row": row["id"], "function": f.path, "trigger": tdesc, "followed_by": req.get("name", req["callee"]) + " in every caller (%s)" % ", ".join(sorted({g_.path.split("::")[-1] for g_, _ in callers_}))}, nontrivial=True)
+                            continue
                     if not cands:
                         res.fail(Finding(res.rule, key, "%s: after %s nothing matches the required %s%s" % (row["why"], tdesc, req.get("name", req["callee"]), " with the same argument" if req.get("same") else ""), f,
                                          t.term["span"] if t is not None else None))
